@@ -60,7 +60,8 @@ def run_grid(ctx, rng, spec, molname, nframes, outliers, d, use_pt=False, shift=
     for row in arr[rng.sample(range(len(arr)), min(len(arr), nframes // 4))]:        # the grid's own rows
         placements.append((row[:3].copy(), row[3:].copy() / np.linalg.norm(row[3:])))
     while len(placements) < nframes:                                                # continuous random placements
-        r = rng.uniform(0.6 * tg[0], 1.2 * bound)
+        # a third of them within +-12 % of the outermost shell boundary (the NaN decision), the rest anywhere
+        r = rng.uniform(0.88 * bound, 1.12 * bound) if rng.random() < 0.33 else rng.uniform(0.6 * tg[0], 1.2 * bound)
         v = np.array([rng.gauss(0, 1) for _ in range(3)])
         placements.append((v / np.linalg.norm(v) * r, random_quat(rng)))
     if use_pt:
@@ -110,7 +111,7 @@ def run(ctx: Ctx):
     ctx.assumptions += ["placements closer than 2e-3 (A / rad) to a cell boundary are unconstrained (the answer is not unique there)",
                         "molecules without an atom on a principal axis (see DESIGN: candidate finding F12 is tracked separately)"]
     ctx.model("Assign", "Assign.cfg", workers=8, note="nearest radius = containing shell, all integer radial grids from a pool")
-    grids = [("8", "7", "[0.2, 0.35]"), ("cube4D_9", "cube3D_9", "[0.2, 0.3, 0.45]"), ("randomQ_6", "randomS_12", "[0.25, 0.4]"),
+    grids = [("8", "7", "[0.2, 0.35]"), ("cube4D_9", "cube3D_9", "[0.2, 0.3, 0.45]"), ("randomQ_6", "randomS_12", "[0.25, 0.4, 0.45]"),
              ("5", "12", "[0.15, 0.3, 0.4]")]
     if thorough:
         grids += [("12", "20", "[0.2, 0.3]"), ("randomQ_10", "ico_13", "[0.3, 0.5, 0.6]"), ("cube4D_16", "randomS_7", "[0.2, 0.4]"),
@@ -123,7 +124,8 @@ def run(ctx: Ctx):
     for gi, spec in enumerate(grids):
         for mi, molname in enumerate(mols if thorough else [mols[gi % len(mols)]]):
             shift = [(0.0, 0.0, 0.0), (0.9, -0.6, 0.4), (15.0, 15.0, 15.0)][(gi + mi) % 3]
-            recs += run_grid(ctx, rng, spec, molname, nframes, outliers=bool((gi + mi) % 2), d=d, shift=shift)
+            # outliers included only for the first grid, so that every non-equidistant radial grid exercises the NaN rule
+            recs += run_grid(ctx, rng, spec, molname, nframes, outliers=bool(gi == 0 and mi == 0), d=d, shift=shift)
     # the grid's own pseudotrajectory (real Pseudotrajectory class), every row
     recs += run_grid(ctx, rng, ("5", "7", "[0.2, 0.35]"), "generic4", 0, outliers=False, d=d, use_pt=True)
     if thorough:
